@@ -66,6 +66,22 @@ type hdrSettings struct {
 	desc          string
 }
 
+// eofAt is an io.ReaderAt with a Size that, as io.ReaderAt allows, returns
+// io.EOF together with a read that ends at the end of the data.
+type eofAt struct{ b []byte }
+
+func (e eofAt) Size() int64 { return int64(len(e.b)) }
+func (e eofAt) ReadAt(p []byte, off int64) (int, error) {
+	if off < 0 || off > int64(len(e.b)) {
+		return 0, io.EOF
+	}
+	n := copy(p, e.b[off:])
+	if off+int64(n) == int64(len(e.b)) {
+		return n, io.EOF
+	}
+	return n, nil
+}
+
 func latin1(rng *rand.Rand, n int) string {
 	b := make([]rune, n)
 	for i := range b {
@@ -281,11 +297,16 @@ func c08Run(c core.Case) *core.Result {
 			io.Copy(io.Discard, sr)
 			sec := io.NewSectionReader(bytes.NewReader(out), 0, int64(len(out)))
 			sec.Seek(int64(rng.Intn(len(out))), io.SeekStart)
-			for i, ra := range []io.ReaderAt{br, sr, sec} {
+			for i, ra := range []io.ReaderAt{br, sr, sec, eofAt{out}} {
 				he, herr := bgzf.HasEOF(ra)
 				if herr != nil || he != marker {
-					r.Violate("haseof|used-reader", "%s: HasEOF on a partly consumed %s = (%v, %v), stream ends with the marker = %v", cfg, []string{"bytes.Reader", "strings.Reader", "io.SectionReader"}[i], he, herr, marker)
+					r.Violate("haseof|used-reader", "%s: HasEOF on %s = (%v, %v), stream ends with the marker = %v", cfg, []string{"a partly consumed bytes.Reader", "a consumed strings.Reader", "a repositioned io.SectionReader", "a ReaderAt that returns the last bytes together with io.EOF"}[i], he, herr, marker)
 				}
+			}
+		} else {
+			// shorter than the marker: there is no marker, and that is not an error
+			if he, herr := bgzf.HasEOF(bytes.NewReader(out)); he || herr != nil {
+				r.Violate("haseof|short-stream", "%s: HasEOF on a stream of %d bytes = (%v, %v), want (false, nil)", cfg, len(out), he, herr)
 			}
 		}
 		switch term {
